@@ -10,6 +10,7 @@ CONSTANTS MaxPolls, MaxCalls,
           Dev_SwallowLast,   \* deviation: the last poll of the path may be ignored
           Dev_InvalidIsValid,\* deviation: an "invalid" verdict may be treated as valid
           Dev_ErrorIgnored,  \* deviation: an engine error may be ignored
+          Dev_ErrorOnlyWhenNotOk, \* deviation: the error is examined only when the boolean is false: (true, err) passes
           Dev_EarlySuccess   \* deviation: a poll that sees the cancellation may return success at once
 
 VARIABLES path, fault, pc, polls, calls, out
@@ -47,7 +48,8 @@ Call == /\ out = "running" /\ pc <= Len(path) /\ path[pc] = "call"
            IF v = "valid" THEN out' = out /\ pc' = pc + 1
            ELSE \/ out' = "err" /\ pc' = pc
                 \/ (Dev_InvalidIsValid /\ v = "invalid") /\ out' = out /\ pc' = pc + 1
-                \/ (Dev_ErrorIgnored /\ v = "error") /\ out' = out /\ pc' = pc + 1
+                \/ (Dev_ErrorIgnored /\ Answer(v).err) /\ out' = out /\ pc' = pc + 1
+                \/ (Dev_ErrorOnlyWhenNotOk /\ v = "errortrue") /\ out' = out /\ pc' = pc + 1
 
 Finish == /\ out = "running" /\ pc = Len(path) + 1
           /\ out' = "ok" /\ UNCHANGED <<path, fault, pc, polls, calls>>
@@ -65,7 +67,7 @@ RuleHolds == Done => Allowed(fault, polls, calls, Result, Undisturbed)
 \* (I2) success is only ever reported for completed work approved by the engine
 SuccessIsComplete == out = "ok" => /\ pc = Len(path) + 1
                                    /\ polls = Count(path, "poll") /\ calls = Count(path, "call")
-                                   /\ \A n \in 1..calls : VerdictOf(n) = "valid"
+                                   /\ \A n \in 1..calls : Approves(VerdictOf(n))
                                    /\ ~(fault.kind = "cancel" /\ fault.k <= polls)
 \* (I3) every fault that lies on the path is reached by the enumeration (no fault is skipped)
 EveryFaultReached == Done /\ ~TookEffect(fault, polls, calls) =>
